@@ -41,16 +41,16 @@ var dateTimeParser = date.NewParser([]string{
 
 	// mm/dd/yy
 	"DD/MM/YYYY HH:mm:ss.SSS",
+	"D/M/YYYY hh:mm:ss P",
 	"DD/MM/YYYY HH:mm:ss",
 	"D/MM/YYYY HH:mm:ss",
 	"DD/M/YYYY HH:mm:ss",
 	"D/M/YYYY HH:mm:ss",
-	"D/M/YYYY hh:mm:ss P",
+	"D/M/YYYY hh:mm P",
+	"D/M/YYYY h:mm P",
 	"DD/MM/YYYY HH:mm",
 	"D/M/YYYY HH:mm",
 	"D/M/YY HH:mm",
-	"D/M/YYYY hh:mm P",
-	"D/M/YYYY h:mm P",
 	"DD/MMM/YYYY:HH:mm:ss ZZZZ",
 	"DD/MM/YYYY",
 	"D/MM/YYYY",
